@@ -7,6 +7,8 @@ package main
 // and no solver is involved.
 
 import (
+	"time"
+	"os"
 	"fmt"
 	"go/constant"
 	"go/token"
@@ -213,11 +215,19 @@ func (e *Engine) Explore(root *ssa.Function) []Summary {
 	}
 	st := &state{stack: []*frame{fr}, mem: map[string]*Term{}}
 	work := []*state{st}
+	rounds, began := 0, time.Now()
 	for len(work) > 0 {
 		s := work[len(work)-1]
 		work = work[:len(work)-1]
 		if len(e.out) > e.maxPaths {
 			e.out = append(e.out, Summary{Root: root, Trunc: "path cap"})
+			break
+		}
+		// a work budget besides the path cap: a change that makes the exploration explode (a loop over input inside a
+		// composed root) must end in an undecided verdict, not in a check that never returns
+		rounds++
+		if rounds > 40*e.maxPaths || (rounds%4096 == 0 && time.Since(began) > 90*time.Second) {
+			e.out = append(e.out, Summary{Root: root, Trunc: "work budget"})
 			break
 		}
 		forks := e.run(s)
@@ -315,9 +325,13 @@ func (e *Engine) run(s *state) []*state {
 					nfr.visits[-5000-tgt.Index]++
 					if nfr.visits[-5000-tgt.Index] < 256 {
 						nfr.visits[tgt.Index]--
+						nfr.visits[fr.block.Index]-- // and the header itself, however the body comes back to it
 					}
 				}
 				if !e.enter(nfr, tgt) {
+					if os.Getenv("WCHECK_DEBUG_LOOPCUT") != "" {
+						fmt.Fprintf(os.Stderr, "loopcut(if) %s block %d -> %d det=%v ind=%v\n", nfr.fn.Name(), fr.block.Index, tgt.Index, deterministic, comparesInduction(v.Cond))
+					}
 					e.stats.loopcut++
 					continue
 				}
@@ -608,6 +622,15 @@ func comparesInduction(c ssa.Value) bool {
 				v = x.X
 			case *ssa.ChangeType:
 				v = x.X
+			case *ssa.BinOp:
+				// i+1 of the range lowering (phi [-1, i+1])
+				if _, ok := x.X.(*ssa.Phi); ok {
+					return true
+				}
+				if _, ok := x.Y.(*ssa.Phi); ok {
+					return true
+				}
+				return false
 			default:
 				return false
 			}
